@@ -7,6 +7,7 @@ import (
 	"errors"
 	"fmt"
 	"io"
+	"math"
 	"net"
 	"runtime"
 	"sort"
@@ -633,10 +634,17 @@ func (multi *MultiEpoch) StreamBlocks(params *old_faithful_grpc.StreamBlocksRequ
 	ctx := ser.Context()
 
 	startSlot := params.StartSlot
-	endSlot := startSlot + maxSlotsToStream
+	endSlot := uint64(math.MaxUint64 - 1)
+	if startSlot < math.MaxUint64-1-maxSlotsToStream {
+		endSlot = startSlot + maxSlotsToStream
+	}
 
 	if params.EndSlot != nil {
 		endSlot = *params.EndSlot
+	}
+	if endSlot == math.MaxUint64 {
+		// no block can have this slot; keeping it out of the range lets `slot <= endSlot; slot++` terminate without wrapping
+		endSlot = math.MaxUint64 - 1
 	}
 
 	filterFunc := func(block *old_faithful_grpc.BlockResponse) bool {
@@ -717,10 +725,17 @@ func (multi *MultiEpoch) StreamTransactions(params *old_faithful_grpc.StreamTran
 	defer overallCancel()
 
 	startSlot := params.StartSlot
-	endSlot := startSlot + maxSlotsToStream
+	endSlot := uint64(math.MaxUint64 - 1)
+	if startSlot < math.MaxUint64-1-maxSlotsToStream {
+		endSlot = startSlot + maxSlotsToStream
+	}
 
 	if params.EndSlot != nil {
 		endSlot = *params.EndSlot
+	}
+	if endSlot == math.MaxUint64 {
+		// no block can have this slot; keeping it out of the range lets `slot <= endSlot; slot++` terminate without wrapping
+		endSlot = math.MaxUint64 - 1
 	}
 	gsfaReader, epochNums := multi.getGsfaReadersInEpochDescendingOrderForSlotRange(ctx, startSlot, endSlot)
 
